@@ -63,4 +63,29 @@ theorem production_max_is_code (p : Params d) (stock : Fin d.n → Ind d → Rat
     simp only [h, h', ne_eq, if_false, cap_eq_min] <;>
       (first | rfl | ring1 | (simp; done) | formula_cases)
 
+/-- `calc_production` as a whole, in terms of the code's own cells: without any binding inventory the optimal production,
+    otherwise the smallest `production_max` cell over the inputs (cells built from the code's constraint formula). -/
+theorem production_is_code (p : Params d) (stock : Fin d.n → Ind d → Rat) (x : Ind d → Rat) (f : Ind d) :
+    production p stock x f =
+      if anyConstraint p stock x then
+        minFin d.n (x f) fun s =>
+          production_max_cell (p.thr s f) (stock s f)
+            (calc_inventory_constraints_psi (x f) (p.a s f) p.psi (durOrZero p s)) (x f)
+      else x f := by
+  simp only [production, prodShortage, cons_is_code, production_max_is_code]
+
+/-- the production phase of a step, industry by industry, from the code's cells (capacity, optimal production). -/
+theorem productionPhase_is_code (p : Params d) (e : Econ d) (e' : Econ d)
+    (h : productionPhase p e = .ok e') (f : Ind d) :
+    e'.prod f = production p e.stock
+      (fun g => production_opt (e.dTot g) (production_cap (p.x0 g) (e.deltaTot g) (e.alpha g))) f := by
+  have hx : (fun g => production_opt (e.dTot g) (production_cap (p.x0 g) (e.deltaTot g) (e.alpha g)))
+      = xOpt p e.dTot e.deltaTot e.alpha := by
+    funext g; exact xOpt_is_code p e.dTot e.deltaTot e.alpha g
+  rw [hx]
+  unfold productionPhase at h
+  split at h
+  · cases h
+  · cases h; rfl
+
 end Boario.Gen
